@@ -28,7 +28,7 @@ theorem get_after_put (cfg : Cfg) (hv : cfg.versioning = false) (s : State) (w w
     ∃ bk', findBucket (handle cfg s w now (.putObject b k p nv)).1 b = some bk' ∧
       (verifyAccess cfg bk' w' .read actGetObject k = none →
         (handle cfg (handle cfg s w now (.putObject b k p nv)).1 w' now (.getObject b k [])).2
-          = okR (verFields (stored p []) true)) := by
+          = okR (verFields [] (stored p []) true)) := by
   simp only [handle] at hput ⊢
   unfold withBucket at hput ⊢
   cases hb : findBucket s b with
@@ -55,8 +55,8 @@ theorem get_after_put (cfg : Cfg) (hv : cfg.versioning = false) (s : State) (w w
 /-- **HEAD agrees with GET** on size, ETag, content type, metadata and headers: both are rendered
 from the same stored version. -/
 theorem head_agrees_with_get (v : Ver) :
-    (verFields v false).filter (fun f => f.1 ≠ "tagcount") =
-    ((verFields v true).filter (fun f => f.1 ≠ "body" ∧ f.1 ≠ "tagcount")) := by
+    (verFields [] v false).filter (fun f => f.1 ≠ "tagcount") =
+    ((verFields [] v true).filter (fun f => f.1 ≠ "body" ∧ f.1 ≠ "tagcount")) := by
   simp [verFields]
 
 /-- **A PUT to one key leaves every other bucket exactly as it was.** -/
